@@ -42,12 +42,12 @@ add("C08",
     "the scan (transitivity handles a dominator removed earlier in the same scan); a tournament winner is a least-fitness member "
     "of its own sample; crowding replaces a parent only by its distance-paired strictly better child; ProbabilisticTournament and "
     "ProbabilisticCrowding (Model/SelectionProb.v, float arithmetic recorded as an oracle): exactly target winners, each a member of "
-    "its own sample; a slot holds its parent or the paired child for every coin, the child for a NaN parent, the parent for a NaN child. Tied to bingo/selection by "
+    "its own sample; a slot holds its parent or the paired child for every coin, the child for a NaN parent, the parent for a NaN child. The decision rules (domination test, removal-set update, most-fit choices, NaN guards, tournament replacement test) are TRANSLATED from the current source on every run (tr_selection.py -> Gen/SelRules.v) and proved equal to the model's. Tied to bingo/selection by "
     "replaying the recorded random draws of real calls through the model (compared inside Coq).",
     "Trusted: Coq kernel; order embedding of fitness/age into Z; np.random.choice on a list picks list[i] for the indices drawn; "
     "the harness. The swap-to-end index argument (survivors stay in the live prefix) is proved in Proofs/ElitismProofs.v and used for C09; "
     "the age component of 'dominated by a survivor' across scans is covered by the oracle. Probabilistic variants: the searchsorted index and the coin are recorded oracles; without log scale a non-positive evidence is outside their domain. Axiom-free.",
-    "Rocq/Coq proof (loop invariants over all tapes) + tape-replay correspondence")
+    "Rocq/Coq proof (loop invariants over all tapes) + translator for the decision rules + tape-replay correspondence")
 
 add("C11",
     "Coq theorems over an executable model of SerialArchipelago migration (shuffled index list read pairwise, each partner "
